@@ -151,13 +151,26 @@ pub fn install_panic_hook() {
         } else {
             "?".into()
         };
+        // a panic outside `guarded` is a bug of the simulator itself: loud, and exit code 2 (harness
+        // error), never a silent 101
+        if GUARD_DEPTH.with(|d| d.get()) == 0 {
+            eprintln!("harness error: simulator panicked at {file}:{line}: {msg}");
+            std::process::exit(2);
+        }
         LAST_PANIC.with(|p| *p.borrow_mut() = Some(PanicInfo { file, line, msg }));
     }));
 }
 
+thread_local! {
+    static GUARD_DEPTH: std::cell::Cell<u32> = const { std::cell::Cell::new(0) };
+}
+
 pub fn guarded<T>(f: impl FnOnce() -> T) -> Result<T, PanicInfo> {
     LAST_PANIC.with(|p| *p.borrow_mut() = None);
-    match catch_unwind(AssertUnwindSafe(f)) {
+    GUARD_DEPTH.with(|d| d.set(d.get() + 1));
+    let r = catch_unwind(AssertUnwindSafe(f));
+    GUARD_DEPTH.with(|d| d.set(d.get() - 1));
+    match r {
         Ok(v) => Ok(v),
         Err(_) => Err(LAST_PANIC.with(|p| p.borrow_mut().take()).unwrap_or(PanicInfo {
             file: "?".into(),
@@ -836,6 +849,7 @@ pub fn dt_to_vt(d: &wirm::DataType) -> Option<VT> {
         D::V128 => VT::V128,
         D::FuncRef | D::FuncRefNull => VT::FuncRef,
         D::ExternRef | D::ExternRefNull => VT::ExternRef,
+        D::Any | D::AnyNull => VT::AnyRef,
         _ => return None,
     })
 }
